@@ -17,7 +17,7 @@ ASSUMPTIONS = ['inputs contain no line separator other than "\\n" (the property\
                'list form = text.split("\\n") minus one trailing empty string']
 # '\ufeff# h': a text whose first character is U+FEFF (what an editor's byte order mark decodes to under utf-8): it is part of the
 # text, and every way of supplying the text must treat it the same
-L = spaces.LINES + ['é日', '$m$', '\ufeff# h']
+L = spaces.LINES + ['é日', '$m$', '\ufeff# h', 'a\x00b']
 BOUNDS = {'quick': dict(lines=2, deep=3, sub_lines=1), 'thorough': dict(lines=3, deep=4, sub_lines=2)}
 # one line deeper over the lines whose handling depends on line ends / document end
 LDEEP = ['foo', '', '```', '- a', '  b', '> q', '[l]: /u', '# h', '   ', '| a | b |', '|---|---|', '\\']
